@@ -187,29 +187,13 @@ def do_check(run: Run, args):
             run.assumptions.append(f"[A] interface contract {c.ident}: " + "; ".join(c.assumptions or ["assumed, not verified against a body"]))
     if args.only:
         own = [c for c in own if args.only in c.ident]
-    reports = []
-    for c in own:
-        rep = verify_contract(ctx, c)
-        reports.append(rep)
-    lemma_reports = [verify_lemma(ctx, l) for l in (mod.lemmas() if hasattr(mod, "lemmas") else [])]
-    # canaries: the pipeline must be able to say "sat" -- one impossible clause per function
+    from .parallel import verify_parallel
+    reports = verify_parallel(ctx, own, timeout_ms=timeout_ms, thorough=run.thorough())
     for rep in reports:
-        if rep.status == "ok":
-            add_canary(rep)
-    discharge_reports(reports + lemma_reports, timeout_ms=timeout_ms, thorough=run.thorough())
-
-    # retry unknowns once with a doubled budget before concluding anything
-    retry = []
-    for rep in reports + lemma_reports:
-        for k, (o, r) in enumerate(zip(rep.obligations, rep.results)):
-            if o.kind != "cover" and r["result"] not in ("sat", "unsat"):
-                retry.append((rep, k))
-    if retry:
-        jobs = [(solve.to_smt2(rep.obligations[k].pc, rep.obligations[k].goal), list(rep.obligations[k].inputs.keys())) for rep, k in retry]
-        res = solve.discharge(jobs, timeout_ms=timeout_ms * 2, thorough=True)
-        for (rep, k), r in zip(retry, res):
-            r["retried"] = True
-            rep.results[k] = r
+        if rep.status == "crash":
+            run.checker_errors.append(f"executor crashed on {rep.contract.ident}: {rep.reason[:400]}")
+    lemma_reports = [verify_lemma(ctx, l) for l in (mod.lemmas() if hasattr(mod, "lemmas") else [])]
+    discharge_reports(lemma_reports, timeout_ms=timeout_ms, thorough=run.thorough())
 
     total_obl = 0
     discharged = 0
@@ -217,7 +201,7 @@ def do_check(run: Run, args):
         c = rep.contract
         fn = c.ident if rep.unit is not None or rep.status != "ok" else "lemma:" + c.ident
         if rep.status != "ok":
-            run.functions.append({"function": c.ident, "target": c.target, "status": rep.status, "reason": rep.reason})
+            run.functions.append({"function": c.ident, "target": c.target, "status": rep.status, "reason": rep.reason[:300]})
             run.notes.append(f"{c.ident}: {rep.status} ({rep.reason}) -- no obligation generated; contract checked natively on sampled inputs only (bounded)")
             continue
         if rep.unit is not None:
@@ -266,33 +250,40 @@ def do_check(run: Run, args):
                 row["result"] = "discharged"
                 discharged += 1
                 if len(run.samples) < 3 and kind in ("ensures", "lemma"):
-                    o = lst[0][0]
-                    run.samples.append({"obligation": row["id"], "kind": kind, "clause_text": c.ensures.get(cl, getattr(c, "goal", "")),
-                                        "smtlib_head": solve.to_smt2(o.pc, o.goal)[:600]})
+                    o = next((x for x, _ in lst if getattr(x, "smt_head", "")), lst[0][0])
+                    head = getattr(o, "smt_head", "") or (solve.to_smt2(o.pc, o.goal)[:600] if hasattr(o, "pc") else "")
+                    if head:
+                        run.samples.append({"obligation": row["id"], "kind": kind, "clause_text": c.ensures.get(cl, getattr(c, "goal", "")),
+                                            "smtlib_head": head})
             else:
                 handle_failure(run, ctx, rep, fn, cl, kind, lst, row, known)
             run.clause_rows.append(row)
 
     # ---- native sampled contract check (encoding cross-check; the bounded stand-in for functions without VCs)
     nsamp = 40 if not run.thorough() else 400
+    todo = []
     for rep in reports:
         c = rep.contract
         if rep.status == "missing" or c.native.get("skip"):
             continue
-        unit = rep.unit or ctx.facts.unit(c.target)
         # a failed obligation without a replayed input (e.g. a loop invariant): search harder for a failing input of this function
         unconfirmed = any(v["fn"] == c.ident and not v.get("confirmed") for v in run.violations)
-        n_here = nsamp * 15 if unconfirmed else nsamp
-        try:
-            cases = NATIVE.sample_prestates(ctx, c, unit, n_here, run.seed, rep.shapes)
-        except Exception as e:
-            run.notes.append(f"sampling failed for {c.ident}: {type(e).__name__}: {e}")
-            cases = []
+        todo.append((rep, nsamp * 15 if unconfirmed else nsamp))
+    _NG.update(ctx=ctx, seed=run.seed, todo=todo)
+    import multiprocessing as mp
+    if todo:
+        with mp.get_context("fork").Pool(min(16, len(todo))) as pool:
+            answers = pool.map(_native_stage, range(len(todo)), chunksize=1)
+    else:
+        answers = []
+    for (rep, n_here), (cases, ans, err) in zip(todo, answers):
+        c = rep.contract
+        unit = rep.unit or ctx.facts.unit(c.target)
+        if err:
+            run.notes.append(f"sampling failed for {c.ident}: {err}")
         if not cases:
             run.crosscheck_rows.append({"function": c.ident, "samples": 0, "disagreements": 0, "note": "no samples"})
             continue
-        job = NATIVE.job_for(ctx, c, unit, cases, shapes=rep.shapes)
-        ans = NATIVE.run_native(job)
         if ans.get("error"):
             run.checker_errors.append(f"native harness failed for {c.ident}: {ans['error']}")
             continue
@@ -361,6 +352,23 @@ def do_check(run: Run, args):
         os.makedirs(os.path.dirname(p), exist_ok=True)
         json.dump(allb, open(p, "w"), indent=1, sort_keys=True)
     return finish(run, mod, total_obl, discharged)
+
+
+_NG = {}
+
+
+def _native_stage(i):
+    rep, n_here = _NG["todo"][i]
+    ctx, c = _NG["ctx"], rep.contract
+    unit = rep.unit or ctx.facts.unit(c.target)
+    try:
+        cases = NATIVE.sample_prestates(ctx, c, unit, n_here, _NG["seed"], rep.shapes)
+    except Exception as e:
+        return [], {}, f"{type(e).__name__}: {e}"
+    if not cases:
+        return [], {}, None
+    job = NATIVE.job_for(ctx, c, unit, cases, shapes=rep.shapes)
+    return cases, NATIVE.run_native(job), None
 
 
 def native_failures(case, c):
@@ -445,7 +453,8 @@ def handle_failure(run, ctx, rep, fn, cl, kind, lst, row, known):
     else:
         o, r = unk[0]
         payload.update(solver={"result": r["result"], "reason": r.get("reason", ""), "tried": r.get("tried")},
-                       path=list(o.path_id), note=o.note, smtlib=solve.to_smt2(o.pc, o.goal)[:4000])
+                       path=list(o.path_id), note=o.note,
+                       smtlib=(getattr(o, "smtlib", "") or (solve.to_smt2(o.pc, o.goal)[:4000] if hasattr(o, "pc") else "")))
         row["result"] = "unknown"
         why = f"no back end decided the obligation ({r.get('reason', '')})"
         baseline = load_baseline()
